@@ -140,3 +140,33 @@ def run_replay(ctx, rng):
     summary = {"e2e_phase": "run", "e2e_logs_matched_against_model": len(log_cases), "e2e_instances": len(cases), "e2e_instances_completed_normally": ok_runs,
                "e2e_sample": {"case": cases[0], "run": (first[0].get("runs") or [None])[0]}}
     return summary, bad
+
+
+def run_c34(ctx):
+    """C34 (atomic acknowledgements imply read-after-write) on a real compiled simulation: keyed
+    writes with unordered values enter .atomic(), acks leave through end_atomic(), the state is
+    kept in a sliced! region fed by use::atomic of that keyed atomic stream, and a read is sent
+    only after the ack was observed.  Predicate, on every execution CompiledSim::exhaustive
+    explores: the read includes the acknowledged write.  Returns (summary, bad_cases) like
+    run_exhaustive; environmental failures skip the phase (coverage note), never a violation."""
+    binary, why = build(ctx)
+    if binary is None:
+        return skipped(ctx, why)
+    cases = [{"k": "exh", "prog": "atomic_keyed", "a": [7, 5], "b": []}]
+    if ctx.tier == "thorough":
+        cases.append({"k": "exh", "prog": "atomic_keyed", "a": [4000000000, 3], "b": []})
+    res, why = run_cases(ctx, binary, cases, "outcomes", "e2e_c34")
+    if res is None:
+        return skipped(ctx, why)
+    bad = []
+    for c, r in zip(cases, res):
+        inc = c["a"][1]
+        stale = [o for o in r["outcomes"] if o < inc]
+        if stale or r.get("executions", 0) < 1 or r.get("observed", 0) < 1:
+            bad.append((c, dict(r, clause="a read observed after an acknowledgement must include the "
+                                          "acknowledged write", stale_reads=stale), 2))
+    summary = {"e2e_phase": "run", "e2e_c34_programs": len(cases),
+               "e2e_c34_real_executions": sum(r.get("executions", 0) for r in res),
+               "e2e_c34_reads_checked": sum(r.get("observed", 0) for r in res),
+               "e2e_c34_sample": {"case": cases[0], "result": res[0]}}
+    return summary, bad
